@@ -2,8 +2,9 @@
 namespace PlzVerif.Generated.C11
 def runtimeHashParts : List String := ["rule(runtime=true,postBuild=false)", "rule(runtime=true,postBuild=true)", "config", "files-digest"]
 def runtimeHashLoopIter : String := "IterRuntimeFiles"
-def runtimeHashLoopWrites : List String := ["hash"]
-def runtimeHashLoopVars : Nat := 1
+def runtimeHashLoopWrites : List String := ["hash", "name:dest", "nul"]
+def runtimeHashLoopVars : Nat := 2
+def runtimeHashLoopAbsoluteNames : String := "false"
 def ruleHashRuntimeWrites : List String := ["each:AllData():String", "each:Test.Outputs:raw", "hashOptionalBool:Test.Sandbox", "write:GetTestCommand(state)", "write:Test.ArgsPlaceholder"]
 def iterRuntimeFilesOrder : List String := ["Outputs", "OwnRuntimeDeps", "AllData", "RuntimeDepsOfPrevious", "AllTestTools", "RuntimeDepsOfPrevious", "AllDebugData", "RuntimeDepsOfPrevious", "AllDebugTools", "RuntimeDepsOfPrevious"]
 def iterRuntimeFilesDedupBy : String := "dest"
